@@ -214,26 +214,57 @@ def run(ctx):
             it = strip_refs(b.expr_operand(p.term["args"][1]))
             if contains_call(it, lambda n: n in name_acc):
                 arm_ext.append((p, it))
-        if len(arm_ext) != 1:
+        # the same arm written as a loop: for (entry, rank) in found.zip(1..) { push(emoji_ranked(format!(..), rank)) }
+        loop_form = None
+        if not arm_ext:
+            cands = []
+            for p in evs:
+                if p.kind != "push" or p.item is None:
+                    continue
+                nx = contains_call(p.item, lambda n: n.endswith("Iterator>::next"))
+                if nx is not None and contains_call(nx, lambda n: n in name_acc):
+                    cands.append((p, nx))
+            if len(cands) == 1:
+                loop_form = cands[0]
+        if loop_form is not None:
+            p, nx = loop_form
+            it = strip_refs(nx.a[1][0])
+            if it.k == "call" and it.a[0].endswith("IntoIterator>::into_iter"):
+                it = strip_refs(it.a[1][0])
+            chain_names, payload_ok, start_ok = _zip_chain(it, name_acc)
+            heads = b.loops()
+            lp = [(h, tails) for h, tails in heads.items() if p.outer_bb in b.loop_body(h, tails)]
+            key = "%s:chain" % mode
+            every = False
+            if len(lp) == 1:
+                h, tails = lp[0]
+                body = b.loop_body(h, tails)
+                exits = [(x, y) for x in body for y in b.bsucc[x] if y not in body and b.blocks[y]["term"]["k"] != "unreachable"]
+                one_exit = len(exits) == 1 and b.blocks[exits[0][0]]["term"]["k"] == "switch" and \
+                    contains_call(strip_refs(b.expr_operand(b.blocks[exits[0][0]]["term"]["discr"])), lambda n: n.endswith("Iterator>::next")) is not None
+                every = one_exit and all(b.dominates(p.outer_bb, tl) for tl in tails)
+            if chain_names != ["zip"]:
+                r3.violation(key, "the emoji iterator is %s; only zip(1..) keeps every entry in order (no filter/take/skip/rev)" % "·".join(chain_names),
+                             site_of(b, p.outer_bb))
+            elif not start_ok:
+                r3.violation(key, "the ranks zipped to the entries do not start at 1", site_of(b, p.outer_bb))
+            elif not payload_ok:
+                r3.violation(key, "the zipped iterator is not the look-up's own result", site_of(b, p.outer_bb))
+            elif not every:
+                r3.violation(key, "the loop over the found entries does not push on every iteration (an entry can be skipped or the loop left early)", site_of(b, p.outer_bb))
+            else:
+                r3.ok(key, "for (entry, rank) in found.zip(1..) { push(..) } — one push per entry, single exit at the end of the table entries")
+            arm_ext_members = [p]
+            _check_wrap(r3, "%s:closure" % mode, prog, b, p, p.rank, lambda e: e, nx, nt, acc, astuple, site_of(b, p.outer_bb), None)
+        elif len(arm_ext) != 1:
             r3.violation("%s:extend" % mode, "expected the name arm to extend the list once with the mapped table entries, found %d" % len(arm_ext), site_of(b, nbb))
         else:
             p, it = arm_ext[0]
             # chain: map(zip(payload, RangeFrom{1}), closure)
-            chain_names = []
             x = it
-            payload_ok = False
-            start_ok = False
-            while x.k == "call":
-                n = x.a[0].split("::")[-1]
-                chain_names.append(n)
-                if n == "zip":
-                    other = strip_refs(x.a[1][1])
-                    if other.k == "agg" and "RangeFrom" in other.a[0] and is_const(strip_refs(other.a[1][0]), "int", 1):
-                        start_ok = True
-                    first = strip_refs(x.a[1][0])
-                    if first.k == "field" and strip_refs(first.a[0]).k == "downcast" and contains_call(first, lambda n_: n_ in name_acc):
-                        payload_ok = True
-                x = strip_refs(x.a[1][0])
+            first_name = x.a[0].split("::")[-1] if x.k == "call" else None
+            chain_names, payload_ok, start_ok = _zip_chain(strip_refs(x.a[1][0]) if first_name == "map" else x, name_acc)
+            chain_names = ([first_name] if first_name == "map" else []) + chain_names
             key = "%s:chain" % mode
             if chain_names[:2] != ["map", "zip"] or len(chain_names) != 2:
                 r3.violation(key, "the emoji iterator is %s; only zip(1..).map(..) keeps every entry in order (no filter/take/skip/rev)" % "·".join(chain_names),
@@ -244,45 +275,13 @@ def run(ctx):
                 r3.violation(key, "the zipped iterator is not the look-up's own result", site_of(b, p.outer_bb))
             else:
                 r3.ok(key, "extend(found.zip(1..).map(closure))")
-            # the closure
-            cb = prog.body(p.closure)
-            rnk = strip_refs(p.rank) if p.rank is not None else None
-            key = "%s:closure" % mode
-            if p.variant != "Emoji" or rnk is None or rnk.k != "call":
-                r3.violation(key, "the mapping closure does not build an Emoji rank", common.fn_line(prog, p.closure))
-            else:
-                item = subst_upvars(prog, p.closure, rnk.a[1][0])
-                rv = strip_refs(rnk.a[1][1]) if len(rnk.a[1]) > 1 else None
-                fp = format_parts(None, item)
-                okr = rv is not None and rv.k == "field" and strip_refs(rv.a[0]).k == "arg" and strip_refs(rv.a[0]).a[0] == 2 and rv.a[1] == 1
-                if fp is None or len(fp) != 3 or any(x[0] != "val" for x in fp):
-                    r3.violation(key, "the emoji candidate is not `preceding ++ emoji ++ trailing`: %r" % (fp,), common.fn_line(prog, p.closure))
-                elif not okr:
-                    r3.violation(key, "the emoji's rank is %r, not the zipped rank" % (rv,), common.fn_line(prog, p.closure))
-                else:
-                    pre = split_part(prog, b, fp[0][1], acc, astuple)
-                    mid = peel_conv(fp[1][1])
-                    post = split_part(prog, b, fp[2][1], acc, astuple)
-                    midok = mid.k == "field" and strip_refs(mid.a[0]).k == "arg" and strip_refs(mid.a[0]).a[0] == 2 and mid.a[1] == 0
-                    # the split value must be the same variable the word candidates are wrapped with (the user variable of the builder)
-                    name_arg_part = split_part(prog, b, b.expr_operand(nt["args"][1]), acc, astuple)
-                    same_var = pre and post and name_arg_part and _same_split(pre[1], name_arg_part[1]) and _same_split(post[1], name_arg_part[1])
-                    if not (pre and post and pre[0] == "preceding" and post[0] == "trailing" and midok):
-                        r3.violation(key, "emoji candidates are wrapped as (%s, %r, %s), expected (preceding, entry, trailing) of the split value"
-                                     % (pre and pre[0], mid, post and post[0]), common.fn_line(prog, p.closure))
-                    elif not _read_after_guard(prog, b, p, [fp[0][1], fp[2][1]], acc):
-                        r3.violation(key, "the wrapping parts used for emoji are read before the conversion / smart-quote step of the builder, "
-                                     "so emoji are wrapped differently from the word", common.fn_line(prog, p.closure))
-                    elif not same_var:
-                        r3.violation(key, "emoji are wrapped with parts of %r / %r, not of the split value whose word was looked up (%r)"
-                                     % (pre[1], post[1], name_arg_part and name_arg_part[1]), common.fn_line(prog, p.closure))
-                    else:
-                        r3.ok(key, "entry ↦ emoji_ranked(preceding ++ entry ++ trailing, zipped rank) on the builder's split value")
+            _check_wrap(r3, "%s:closure" % mode, prog, b, p, p.rank if p.variant == "Emoji" else None, lambda e: subst_upvars(prog, p.closure, e), None, nt, acc, astuple,
+                        common.fn_line(prog, p.closure), p.closure)
         # ---- R4
         for p in evs:
             if p.item is None:
                 continue
-            is_emoji_src = contains_call(p.item, lambda n: n in data_acc) or (p.closure and p in [q for q, _ in arm_ext])
+            is_emoji_src = contains_call(p.item, lambda n: n in data_acc) or (p.closure and p in [q for q, _ in arm_ext]) or (loop_form is not None and p is loop_form[0])
             if is_emoji_src:
                 key = "%s:%s#%d" % (mode, p.kind, p.outer_bb)
                 if p.variant == "Emoji":
@@ -338,6 +337,75 @@ def run(ctx):
     r9.floor(1, "phonetic builder")
 
 
+def _zip_chain(x, name_acc):
+    """(adaptor names outermost first, payload is the look-up's own Some payload, ranks start at 1) of an iterator expression."""
+    chain_names = []
+    payload_ok = start_ok = False
+    while x.k == "call":
+        n = x.a[0].split("::")[-1]
+        chain_names.append(n)
+        if n == "zip":
+            other = strip_refs(x.a[1][1])
+            if other.k == "agg" and "RangeFrom" in other.a[0] and is_const(strip_refs(other.a[1][0]), "int", 1):
+                start_ok = True
+            first = strip_refs(x.a[1][0])
+            if first.k == "field" and strip_refs(first.a[0]).k == "downcast" and contains_call(first, lambda n_: n_ in name_acc):
+                payload_ok = True
+            break
+        x = strip_refs(x.a[1][0])
+    return chain_names, payload_ok, start_ok
+
+
+def _is_pair_part(e, idx, nx):
+    """e is component idx of the zipped pair: closure form = field idx of the closure's parameter; loop form = field idx of the Some payload of next()."""
+    e = strip_refs(e)
+    if e.k != "field" or str(e.a[1]) != str(idx):
+        return False
+    base = strip_refs(e.a[0])
+    if nx is None:
+        return base.k == "arg" and base.a[0] == 2
+    if base.k == "field" and str(base.a[1]) == "0":
+        d = strip_refs(base.a[0])
+        return d.k == "downcast" and strip_refs(d.a[0]) == nx
+    return False
+
+
+def _check_wrap(r3, key, prog, b, p, rank_e, subst, nx, nt, acc, astuple, site, closure):
+    """entry ↦ Emoji rank of (preceding ++ entry ++ trailing) with the zipped rank, on the builder's own split value."""
+    rnk = strip_refs(rank_e) if rank_e is not None else None
+    if p.variant != "Emoji" or rnk is None or rnk.k != "call":
+        r3.violation(key, "the entries are not turned into Emoji ranks", site)
+        return
+    item = subst(rnk.a[1][0])
+    rv = strip_refs(rnk.a[1][1]) if len(rnk.a[1]) > 1 else None
+    fp = format_parts(None, item)
+    okr = rv is not None and _is_pair_part(rv, 1, nx)
+    if fp is None or len(fp) != 3 or any(x[0] != "val" for x in fp):
+        r3.violation(key, "the emoji candidate is not `preceding ++ emoji ++ trailing`: %r" % (fp,), site)
+        return
+    if not okr:
+        r3.violation(key, "the emoji's rank is %r, not the zipped rank" % (rv,), site)
+        return
+    pre = split_part(prog, b, fp[0][1], acc, astuple)
+    mid = peel_conv(fp[1][1])
+    post = split_part(prog, b, fp[2][1], acc, astuple)
+    midok = _is_pair_part(mid, 0, nx)
+    # the split value must be the same variable the word candidates are wrapped with (the user variable of the builder)
+    name_arg_part = split_part(prog, b, b.expr_operand(nt["args"][1]), acc, astuple)
+    same_var = pre and post and name_arg_part and _same_split(pre[1], name_arg_part[1]) and _same_split(post[1], name_arg_part[1])
+    if not (pre and post and pre[0] == "preceding" and post[0] == "trailing" and midok):
+        r3.violation(key, "emoji candidates are wrapped as (%s, %r, %s), expected (preceding, entry, trailing) of the split value"
+                     % (pre and pre[0], mid, post and post[0]), site)
+    elif not _read_after_guard(prog, b, p, [fp[0][1], fp[2][1]], acc):
+        r3.violation(key, "the wrapping parts used for emoji are read before the conversion / smart-quote step of the builder, "
+                     "so emoji are wrapped differently from the word", site)
+    elif not same_var:
+        r3.violation(key, "emoji are wrapped with parts of %r / %r, not of the split value whose word was looked up (%r)"
+                     % (pre[1], post[1], name_arg_part and name_arg_part[1]), site)
+    else:
+        r3.ok(key, "entry ↦ emoji_ranked(preceding ++ entry ++ trailing, zipped rank) on the builder's split value")
+
+
 def _same_split(a, b):
     """Both expressions denote the same split variable (the builder's user variable, possibly re-assigned by the quoter)."""
     ra, fa = apath(a)
@@ -360,7 +428,7 @@ def _read_after_guard(prog, b, p, parts, acc):
                 gsw = i
     if gsw is None:
         return False
-    cc = closure_creation(prog, p.closure)
+    cc = closure_creation(prog, p.closure) if p.closure else None
     create_bb = cc[1] if cc else None
     for e in parts:
         for x in e.walk():
